@@ -630,4 +630,3 @@ func clip(s string, at int) string {
 	}
 	return s[lo:hi]
 }
-
